@@ -33,7 +33,7 @@ def replications(H):
     return out
 
 
-def check_stream(H, warmup_time_of, lenient_stopping_after_end=False):
+def check_stream(H, warmup_time_of, lenient_stopping_after_end=False, silent_failures=False):
     """Grammar of the notification stream of every replication.
     warmup_time_of(rep_slice) -> expected warm-up timestamp."""
     findings = []
@@ -110,7 +110,10 @@ def check_stream(H, warmup_time_of, lenient_stopping_after_end=False):
                         and not (items[j][0] == "ntf" and items[j][1] in
                                  ("TIME_CHANGED", "STOP", "END_REPLICATION")):
                     j += 1
-                if j >= n_items or not _is_exec(items[j]) or items[j][2] != t:
+                # (silent_failures: some handler calls fail before the handler runs,
+                # an announced event then leaves no execution record)
+                if not silent_failures and (j >= n_items or not _is_exec(items[j])
+                                            or items[j][2] != t):
                     nxt = items[j] if j < n_items else "<end of stream>"
                     findings.append(("stream-grammar", "TIME_CHANGED(%s) is not "
                                      "followed by the execution of an event at that "
